@@ -22,6 +22,12 @@ func (t *bodyTr) assignTo(lhs ast.Expr, v int, rel bool, define bool) {
 		}
 	}
 	store := func(x int) {
+		if (!rel || v < 0) && x >= 0 && isObjLike(t.typeOf(lhs)) {
+			// an object that is not followed (an immutable one somebody else built) is stored INTO x: nothing
+			// escapes, but x is modified - which counts against the immutability of x's type
+			t.emit(&node{op: "store", r: x, v: t.objTmpMake(lhs), pos: -1, why: "ret", line: ln})
+			return
+		}
 		if !rel || v < 0 {
 			return
 		}
@@ -58,6 +64,14 @@ func (t *bodyTr) assignTo(lhs ast.Expr, v int, rel bool, define bool) {
 		}
 		switch kindOf(o.Type()) {
 		case kNone:
+			if isIfaceVar(o) {
+				// a local interface variable: it gets a register once it holds something that reaches bytes
+				_, has := t.regOf[t.find(o)]
+				if (rel && v >= 0) || has {
+					t.assignObjVar(o, v, rel, lhs)
+				}
+				return
+			}
 			esc()
 		case kArr:
 			r := t.reg(o)
@@ -161,7 +175,7 @@ func (t *bodyTr) assignObjVar(o types.Object, v int, rel bool, at ast.Node) {
 		t.emit(&node{op: "make", r: R, pos: -1, line: t.line(at)})
 	}
 	// binding a variable is not a store into the object: the class may from now on ALSO denote v
-	t.emit(&node{op: "phi", r: R, vs: []int{R, v}, pos: -1, line: t.line(at)})
+	t.bind(R, v, at)
 }
 
 // hasInlineBytes: a struct value (not a pointer) with a byte array somewhere inside it
@@ -187,6 +201,13 @@ func (t *bodyTr) retOrEscape(i int, v int, at ast.Node) {
 		return
 	}
 	declNone := i >= len(t.results) || kindOf(t.results[i].Type()) == kNone
+	if declNone && !t.strict && i < len(t.results) && isIfaceT(t.results[i].Type()) {
+		// an internal helper that returns an interface value holding byte memory (the reader hkdf.New gives):
+		// a result like any other; its callers account for what it holds
+		t.resTrk[i] = true
+		t.emit(&node{op: "ret", v: v, pos: i, line: t.line(at)})
+		return
+	}
 	switch {
 	case declNone:
 		t.emit(&node{op: "escape", v: v, pos: -1, why: "ret", line: t.line(at)})
@@ -423,7 +444,7 @@ func (t *bodyTr) tupleAssign(lhs []ast.Expr, rhs ast.Expr, define bool) {
 			if i < len(regs) && i < len(rts) {
 				v, rt = regs[i], rts[i]
 			}
-			t.assignTo(l, v, t.relType(rt, t.trackedCallRes(r, i)), define)
+			t.assignTo(l, v, t.relType(rt, t.trackedCallRes(r, i)) || (isIfaceT(rt) && v >= 0), define)
 		}
 	case *ast.TypeAssertExpr:
 		t.walk(r.X)
